@@ -154,6 +154,29 @@ Section Filters.
   Qed.
 End Filters.
 
+(* placeholders of the tag: names are [\w?-]+ *)
+Definition tname_ok (n : str) : Prop := n <> [] /\ forallb is_tname n = true.
+
+Lemma is_tname_not_special c : is_tname c = true -> c <> c_pct /\ c <> c_rpar /\ c <> c_lpar /\ is_space c = false.
+Proof. unfold is_tname, is_word, is_space, c_pct, c_rpar, c_lpar. intro H. lia. Qed.
+
+Lemma take_tname_name n x : forallb is_tname n = true -> (match x with [] => True | c :: _ => is_tname c = false end) ->
+  take_tname (n ++ x) = (n, x).
+Proof.
+  intros Hn Hx. induction n as [|c n IH]; cbn [app].
+  - destruct x as [|c x]; cbn [take_tname]; [reflexivity|]. rewrite Hx. reflexivity.
+  - cbn [forallb] in Hn. apply andb_true_iff in Hn. destruct Hn as [Hc Hn].
+    cbn [take_tname]. rewrite Hc, (IH Hn). reflexivity.
+Qed.
+
+Lemma parse_ph_t_placeholder n rest : tname_ok n ->
+  parse_ph_t (c_lpar :: n ++ c_rpar :: c_s :: rest) = Some (n, rest).
+Proof.
+  intros [Hne Hw]. unfold parse_ph_t. change (c_lpar =? 40)%N with true. cbv iota.
+  rewrite (take_tname_name n (c_rpar :: c_s :: rest) Hw) by reflexivity.
+  destruct n as [|c n]; [contradiction|]. reflexivity.
+Qed.
+
 (* ------------------------------------------------------------------ *)
 (* the tag: doubling '%' and printf-formatting restores the text       *)
 
@@ -165,17 +188,17 @@ Section Tag.
     induction u as [|c u IH]; intro rest; [reflexivity|]. cbn [length app printf]. apply IH.
   Qed.
 
-  Lemma take_until_rpar_name n x : forallb is_word n = true ->
+  Lemma take_until_rpar_name n x : forallb is_tname n = true ->
     take_until_rpar (n ++ c_rpar :: x) = Some (n, x).
   Proof.
     intro Hn. induction n as [|c n IH]; cbn [app take_until_rpar].
     - rewrite N.eqb_refl. reflexivity.
     - cbn [forallb] in Hn. apply andb_true_iff in Hn. destruct Hn as [Hc Hn].
-      destruct (is_word_not_special c Hc) as (_ & Hr & _).
+      destruct (is_tname_not_special c Hc) as (_ & Hr & _).
       destruct (N.eqb_spec c c_rpar); [contradiction|]. rewrite (IH Hn). reflexivity.
   Qed.
 
-  Definition names_ok (items : list item) : Prop := forall n, In (IVar n) items -> name_ok n.
+  Definition names_ok (items : list item) : Prop := forall n, In (IVar n) items -> tname_ok n.
 
   Theorem printf_restores_text get : forall items,
     names_ok items -> (forall n, In (IVar n) items -> get n = Some (lk n)) ->
@@ -228,7 +251,7 @@ Section Tag.
     - assert (Hok' : names_ok r) by (intros m Hm; apply Hok; right; exact Hm).
       cbn [serialize names_of]. destruct (N.eqb_spec c c_pct) as [->|Hne].
       + cbn [find_vars_t]. cbn [N.eqb c_pct Pos.eqb]. rewrite Hev.
-        replace (parse_ph (37%N :: serialize r)) with (@None (str * str)) by reflexivity.
+        replace (parse_ph_t (37%N :: serialize r)) with (@None (str * str)) by reflexivity.
         cbn [find_vars_t N.eqb Pos.eqb].
         replace (Nat.even (S run)) with false by (rewrite Nat.even_succ, <- Nat.negb_even, Hev; reflexivity).
         apply IH; [exact Hok'|]. rewrite Nat.even_succ, Nat.odd_succ. exact Hev.
@@ -237,13 +260,13 @@ Section Tag.
       cbn [serialize names_of].
       assert (Hstep : forall r0, find_vars_t 0 run (c_pct :: r0) =
                 if Nat.even run
-                then match parse_ph r0 with
+                then match parse_ph_t r0 with
                      | Some (n0, _) => n0 :: find_vars_t (length n0 + 3) 0 r0
                      | None => find_vars_t 0 (S run) r0
                      end
                 else find_vars_t 0 (S run) r0) by reflexivity.
       rewrite Hstep, Hev.
-      rewrite (parse_ph_placeholder n (serialize r) (Hok n (or_introl eq_refl))). f_equal.
+      rewrite (parse_ph_t_placeholder n (serialize r) (Hok n (or_introl eq_refl))). f_equal.
       rewrite ph_split, <- ph_len. rewrite find_vars_t_skip by discriminate. apply IH; [exact Hok'|reflexivity].
   Qed.
 
@@ -272,41 +295,558 @@ Section Tag.
     symmetry. apply mem_In, names_of_In, Hn.
   Qed.
 
-  (* whitespace normalisation does nothing to a message without whitespace *)
-  Lemma drop_space_id s : forallb (fun c => negb (is_space c)) s = true -> drop_space s = s.
-  Proof. destruct s as [|c s]; cbn; [reflexivity|]. intro H. apply andb_true_iff in H. destruct H as [H _].
-         apply negb_true_iff in H. rewrite H. reflexivity. Qed.
-
-  Lemma collapse_id s : forallb (fun c => negb (is_space c)) s = true -> collapse 0 s = s.
-  Proof.
-    induction s as [|c s IH]; cbn [forallb collapse]; [reflexivity|]. intro H.
-    apply andb_true_iff in H. destruct H as [Hc Hs]. apply negb_true_iff in Hc. rewrite Hc. f_equal. apply IH, Hs.
-  Qed.
-
-  Lemma forallb_rev {A} (f : A -> bool) l : forallb f (rev l) = forallb f l.
-  Proof.
-    induction l as [|x l IH]; cbn; [reflexivity|]. rewrite forallb_app, IH. cbn. rewrite andb_true_r. apply andb_comm.
-  Qed.
-
-  Lemma normalise_id s : forallb (fun c => negb (is_space c)) s = true -> normalise s = s.
-  Proof.
-    intro H. unfold normalise, strip. rewrite (drop_space_id s H).
-    rewrite drop_space_id by (rewrite forallb_rev; exact H). rewrite rev_involutive. apply collapse_id, H.
-  Qed.
-
-  Theorem tag_text_intact items : names_ok items ->
-    forallb (fun c => negb (is_space c)) (serialize items) = true ->
-    format_tag items lk = Ok (render_items items lk).
-  Proof.
-    intros Hok Hns. unfold format_tag. rewrite (normalise_id _ Hns). apply tag_message_intact, Hok.
-  Qed.
 End Tag.
 
+
 (* ------------------------------------------------------------------ *)
-(* plural selection                                                    *)
+(* the tag: whitespace normalisation, for every block                  *)
+
+Definition nsp (c : N) : bool := negb (is_space c).
+Definition head_ns (x : str) : Prop := match x with [] => True | c :: _ => is_space c = false end.
+Definition last_ns (x : str) : Prop := head_ns (rev x).
+
+Lemma forallb_rev' {A} (f : A -> bool) l : forallb f (rev l) = forallb f l.
+Proof.
+  induction l as [|x l IH]; cbn; [reflexivity|]. rewrite forallb_app, IH. cbn. rewrite andb_true_r. apply andb_comm.
+Qed.
+
+Lemma drop_space_all g x : forallb is_space g = true -> drop_space (g ++ x) = drop_space x.
+Proof.
+  induction g as [|c g IH]; cbn [app forallb]; [reflexivity|]. intro H. apply andb_true_iff in H. destruct H as [Hc Hg].
+  cbn [drop_space]. rewrite Hc. apply IH, Hg.
+Qed.
+
+Lemma drop_space_head x : head_ns x -> drop_space x = x.
+Proof. destruct x as [|c x]; cbn; [reflexivity|]. intros ->. reflexivity. Qed.
+
+Lemma drop_space_blank g : forallb is_space g = true -> drop_space g = [].
+Proof. intro H. rewrite <- (app_nil_r g), drop_space_all by exact H. reflexivity. Qed.
+
+Lemma strip_core lead core trail : forallb is_space lead = true -> forallb is_space trail = true ->
+  head_ns core -> last_ns core -> strip (lead ++ core ++ trail) = core.
+Proof.
+  intros Hl Ht Hh Hla. unfold strip. rewrite (drop_space_all lead _ Hl).
+  destruct core as [|c m].
+  - cbn [app]. rewrite (drop_space_blank trail Ht). reflexivity.
+  - rewrite (drop_space_head ((c :: m) ++ trail)) by exact Hh.
+    rewrite rev_app_distr, drop_space_all by (rewrite forallb_rev'; exact Ht).
+    rewrite (drop_space_head _ Hla). apply rev_involutive.
+Qed.
+
+Lemma head_ns_app x y : x <> [] -> forallb nsp x = true -> head_ns (x ++ y).
+Proof.
+  destruct x as [|c x]; [contradiction|]. intros _ H. cbn in *. apply andb_true_iff in H. destruct H as [H _].
+  apply negb_true_iff in H. exact H.
+Qed.
+
+Lemma last_ns_word x : x <> [] -> forallb nsp x = true -> last_ns x.
+Proof.
+  intros Hne H. unfold last_ns. rewrite <- (app_nil_r (rev x)). apply head_ns_app.
+  - intro E. apply Hne. rewrite <- (rev_involutive x), E. reflexivity.
+  - rewrite forallb_rev'. exact H.
+Qed.
+
+Lemma last_ns_app a b : b <> [] -> last_ns b -> last_ns (a ++ b).
+Proof.
+  unfold last_ns. intros Hne H. rewrite rev_app_distr.
+  destruct (rev b) as [|c m] eqn:E.
+  - exfalso. apply Hne. rewrite <- (rev_involutive b), E. reflexivity.
+  - exact H.
+Qed.
+
+Lemma collapse_skip : forall u x, collapse (length u) (u ++ x) = collapse 0 x.
+Proof. induction u as [|c u IH]; intro x; [reflexivity|]. cbn [length app collapse]. apply IH. Qed.
+
+Lemma collapse_word : forall w x, forallb nsp w = true -> collapse 0 (w ++ x) = w ++ collapse 0 x.
+Proof.
+  induction w as [|c w IH]; intros x H; [reflexivity|]. cbn [forallb] in H. apply andb_true_iff in H. destruct H as [Hc Hw].
+  apply negb_true_iff in Hc. cbn [app collapse]. rewrite Hc. f_equal. apply IH, Hw.
+Qed.
+
+Lemma span_space_gap g x : forallb is_space g = true -> head_ns x -> span_space (g ++ x) = (g, x).
+Proof.
+  intros Hg Hx. induction g as [|c g IH]; cbn [app].
+  - destruct x as [|c x]; cbn [span_space]; [reflexivity|]. cbn in Hx. rewrite Hx. reflexivity.
+  - cbn [forallb] in Hg. apply andb_true_iff in Hg. destruct Hg as [Hc Hg].
+    cbn [span_space]. rewrite Hc, (IH Hg). reflexivity.
+Qed.
+
+Definition sgap_out (g : str) : str := if existsb (fun x => (x =? 10)%N) g then [32%N] else g.
+
+Lemma collapse_gap g x : g <> [] -> forallb is_space g = true -> head_ns x ->
+  collapse 0 (g ++ x) = sgap_out g ++ collapse 0 x.
+Proof.
+  intros Hne Hg Hx. pose proof (span_space_gap g x Hg Hx) as Hs.
+  destruct g as [|c g]; [contradiction|]. cbn [app] in *.
+  assert (Hc : is_space c = true) by (cbn [forallb] in Hg; apply andb_true_iff in Hg; tauto).
+  cbn [collapse]. rewrite Hc, Hs. cbn [fst]. unfold sgap_out. f_equal.
+  cbn [length]. rewrite Nat.sub_1_r. cbn [Nat.pred]. apply collapse_skip.
+Qed.
+
+(* item level *)
+Lemma serialize_app a b : serialize (a ++ b) = serialize a ++ serialize b.
+Proof.
+  induction a as [|[c|n] a IH]; cbn [app serialize]; [reflexivity| |].
+  - destruct (c =? c_pct)%N; cbn [app]; rewrite IH; reflexivity.
+  - rewrite IH. cbn [app]. rewrite <- app_assoc. reflexivity.
+Qed.
+
+Lemma names_valid_app a b : names_valid (a ++ b) = (names_valid a && names_valid b)%bool.
+Proof.
+  induction a as [|[c|n] a IH]; cbn [app names_valid]; [reflexivity|exact IH|]. rewrite IH. apply andb_assoc.
+Qed.
+
+Lemma space_not_pct c : is_space c = true -> (c =? c_pct)%N = false.
+Proof. unfold is_space, c_pct. lia. Qed.
+
+(* a gap serialises to itself: whitespace characters, the same newlines *)
+Lemma ser_gap g : all_space g = true ->
+  forallb is_space (serialize g) = true /\ existsb (fun x => (x =? 10)%N) (serialize g) = existsb item_nl g /\
+  (g <> [] -> serialize g <> []) /\ names_valid g = true.
+Proof.
+  unfold all_space. induction g as [|[c|n] g IH]; cbn [forallb item_space]; intro H.
+  - repeat split. intro E. exfalso. apply E. reflexivity.
+  - apply andb_true_iff in H. destruct H as [Hc Hg]. destruct (IH Hg) as (I1 & I2 & I3 & I4).
+    cbn [serialize]. rewrite (space_not_pct c Hc). cbn [forallb existsb item_nl names_valid]. rewrite Hc, I1, I2.
+    repeat split; [discriminate|exact I4].
+  - discriminate.
+Qed.
+
+Lemma ser_gap_out g : all_space g = true -> serialize (gap_out g) = sgap_out (serialize g).
+Proof.
+  intro H. destruct (ser_gap g H) as (_ & Hnl & _). unfold gap_out, sgap_out. rewrite Hnl.
+  destruct (existsb item_nl g); reflexivity.
+Qed.
+
+Lemma name_valid_chars n : name_valid n = true -> n <> [] /\ forallb is_tname n = true.
+Proof. destruct n as [|c n]; [discriminate|]. intro H. split; [discriminate|exact H]. Qed.
+
+Lemma tname_nsp n : forallb is_tname n = true -> forallb nsp n = true.
+Proof.
+  induction n as [|c n IH]; cbn [forallb]; [reflexivity|]. intro H. apply andb_true_iff in H. destruct H as [Hc Hn].
+  destruct (is_tname_not_special c Hc) as (_ & _ & _ & Hs). unfold nsp at 1. rewrite Hs, (IH Hn). reflexivity.
+Qed.
+
+(* a word serialises to non-whitespace characters *)
+Lemma ser_word w : forallb (fun i => negb (item_space i)) w = true -> names_valid w = true ->
+  forallb nsp (serialize w) = true /\ (w <> [] -> serialize w <> []).
+Proof.
+  induction w as [|[c|n] w IH]; cbn [forallb item_space names_valid]; intros H Hv.
+  - split; [reflexivity|intro E; exfalso; apply E; reflexivity].
+  - apply andb_true_iff in H. destruct H as [Hc Hw]. destruct (IH Hw Hv) as (I1 & _).
+    cbn [serialize]. destruct (c =? c_pct)%N; cbn [forallb]; rewrite I1; unfold nsp at 1.
+    + split; [reflexivity|discriminate].
+    + rewrite Hc. split; [reflexivity|discriminate].
+  - apply andb_true_iff in H. destruct H as [_ Hw]. apply andb_true_iff in Hv. destruct Hv as [Hn Hv].
+    destruct (IH Hw Hv) as (I1 & _). destruct (name_valid_chars n Hn) as [_ Hch].
+    cbn [serialize forallb]. rewrite forallb_app, (tname_nsp n Hch). cbn [forallb]. rewrite I1.
+    split; [reflexivity|discriminate].
+Qed.
+
+Definition rest_ok (rest : list (list item * list item)) : bool :=
+  forallb (fun gw => is_gap (fst gw) && is_word_run (snd gw)) rest.
+
+Lemma is_word_run_inv w : is_word_run w = true -> w <> [] /\ forallb (fun i => negb (item_space i)) w = true.
+Proof. destruct w as [|i w]; [discriminate|]. intro H. split; [discriminate|exact H]. Qed.
+Lemma is_gap_inv g : is_gap g = true -> g <> [] /\ all_space g = true.
+Proof. destruct g as [|i g]; [discriminate|]. intro H. split; [discriminate|exact H]. Qed.
+
+Lemma app_nonempty {A} (a b : list A) : a <> [] -> a ++ b <> [].
+Proof. destruct a; [contradiction|discriminate]. Qed.
+
+(* the words-and-gaps part of a block: collapse rewrites exactly the gaps *)
+Lemma collapse_body : forall rest w1, is_word_run w1 = true -> rest_ok rest = true ->
+  names_valid (w1 ++ flat_rest rest) = true ->
+  collapse 0 (serialize (w1 ++ flat_rest rest)) = serialize (w1 ++ norm_rest rest) /\
+  last_ns (serialize (w1 ++ flat_rest rest)) /\ names_valid (w1 ++ norm_rest rest) = true.
+Proof.
+  induction rest as [|[g w] rest IH]; intros w1 Hw1 Hr Hv.
+  - cbn [flat_rest norm_rest] in *. rewrite app_nil_r in *. destruct (is_word_run_inv w1 Hw1) as [Hne Hns].
+    destruct (ser_word w1 Hns Hv) as [S1 S2]. split; [|split; [|exact Hv]].
+    + rewrite <- (app_nil_r (serialize w1)) at 1. rewrite collapse_word by exact S1. cbn [collapse]. apply app_nil_r.
+    + apply last_ns_word; [apply S2, Hne|exact S1].
+  - cbn [flat_rest norm_rest rest_ok forallb fst snd] in *.
+    apply andb_true_iff in Hr. destruct Hr as [Hgw Hr]. apply andb_true_iff in Hgw. destruct Hgw as [Hg Hw].
+    rewrite names_valid_app in Hv. apply andb_true_iff in Hv. destruct Hv as [Hv1 Hv]. rewrite names_valid_app in Hv.
+    apply andb_true_iff in Hv. destruct Hv as [Hvg Hv].
+    destruct (is_word_run_inv w1 Hw1) as [Hne1 Hns1]. destruct (ser_word w1 Hns1 Hv1) as [S1 S2].
+    destruct (is_gap_inv g Hg) as [Hgne Hgs]. destruct (ser_gap g Hgs) as (G1 & G2 & G3 & G4).
+    destruct (is_word_run_inv w Hw) as [Hne Hns].
+    destruct (IH w Hw Hr Hv) as (I1 & I2 & I3).
+    assert (Hvw : names_valid w = true).
+    { rewrite names_valid_app in Hv. apply andb_true_iff in Hv. tauto. }
+    destruct (ser_word w Hns Hvw) as [W1 W2].
+    assert (Hhead : head_ns (serialize (w ++ flat_rest rest))).
+    { rewrite serialize_app. apply head_ns_app; [apply W2, Hne|exact W1]. }
+    assert (Hnonempty : serialize (w ++ flat_rest rest) <> []).
+    { rewrite serialize_app. apply app_nonempty, W2, Hne. }
+    split; [|split].
+    + rewrite !serialize_app. rewrite <- !serialize_app with (a := w).
+      rewrite collapse_word by exact S1. rewrite collapse_gap by (auto using G3). rewrite I1.
+      rewrite (ser_gap_out g Hgs). reflexivity.
+    + rewrite serialize_app. apply last_ns_app.
+      * rewrite serialize_app. intro E. apply app_eq_nil in E. destruct E as [_ E]. exact (Hnonempty E).
+      * rewrite serialize_app. apply last_ns_app; [exact Hnonempty|exact I2].
+    + rewrite !names_valid_app. rewrite Hv1. rewrite names_valid_app in I3. rewrite I3. cbn [andb].
+      unfold gap_out. destruct (existsb item_nl g); [reflexivity|]. rewrite G4. reflexivity.
+Qed.
+
+Lemma wf_words_inv lead w1 rest trail : wf_block (BWords lead w1 rest trail) = true ->
+  all_space lead = true /\ is_word_run w1 = true /\ rest_ok rest = true /\ all_space trail = true.
+Proof. cbn [wf_block]. intro H. repeat (apply andb_true_iff in H; destruct H as [H ?]). auto. Qed.
+
+(* strip + re.sub on the serialised block = the serialised normal form of its decomposition *)
+Theorem normalise_block b : wf_block b = true -> names_valid (flatten b) = true ->
+  normalise (serialize (flatten b)) = serialize (norm_block b) /\ names_valid (norm_block b) = true.
+Proof.
+  destruct b as [ws|lead w1 rest trail]; intros Hwf Hv.
+  - cbn [wf_block flatten norm_block] in *. destruct (ser_gap ws Hwf) as (G1 & _).
+    unfold normalise. rewrite <- (app_nil_r (serialize ws)).
+    change (serialize ws ++ []) with (serialize ws ++ [] ++ []).
+    rewrite strip_core; [split; reflexivity|exact G1|reflexivity|exact I|exact I].
+  - destruct (wf_words_inv _ _ _ _ Hwf) as (Hl & Hw1 & Hr & Ht).
+    cbn [flatten norm_block] in *.
+    replace (lead ++ w1 ++ flat_rest rest ++ trail) with (lead ++ (w1 ++ flat_rest rest) ++ trail) in *
+      by (rewrite <- !app_assoc; reflexivity).
+    rewrite names_valid_app in Hv. apply andb_true_iff in Hv. destruct Hv as [_ Hv].
+    rewrite names_valid_app in Hv. apply andb_true_iff in Hv. destruct Hv as [Hv _].
+    destruct (collapse_body rest w1 Hw1 Hr Hv) as (C1 & C2 & C3).
+    destruct (ser_gap lead Hl) as (L1 & _). destruct (ser_gap trail Ht) as (T1 & _).
+    destruct (is_word_run_inv w1 Hw1) as [Hne1 Hns1].
+    assert (Hv1 : names_valid w1 = true) by (rewrite names_valid_app in Hv; apply andb_true_iff in Hv; tauto).
+    destruct (ser_word w1 Hns1 Hv1) as [S1 S2].
+    split; [|exact C3].
+    unfold normalise. rewrite (serialize_app lead), (serialize_app (w1 ++ flat_rest rest) trail).
+    rewrite strip_core; [exact C1|exact L1|exact T1| |exact C2].
+    rewrite serialize_app. apply head_ns_app; [apply S2, Hne1|exact S1].
+Qed.
+
+Lemma names_valid_ok items : names_valid items = true -> names_ok items.
+Proof.
+  induction items as [|[c|n] r IH]; cbn [names_valid]; intros H m Hin.
+  - destruct Hin.
+  - destruct Hin as [E|Hin]; [discriminate|]. apply (IH H), Hin.
+  - apply andb_true_iff in H. destruct H as [Hn Hr]. destruct Hin as [E|Hin].
+    + inversion E; subst. apply name_valid_chars, Hn.
+    + apply (IH Hr), Hin.
+Qed.
+
+Lemma names_ok_valid items : names_ok items -> names_valid items = true.
+Proof.
+  induction items as [|[c|n] r IH]; cbn [names_valid]; intro H; [reflexivity| |].
+  - apply IH. intros m Hm. apply H. right. exact Hm.
+  - rewrite IH by (intros m Hm; apply H; right; exact Hm). rewrite andb_true_r.
+    destruct (H n (or_introl eq_refl)) as [Hne Hch]. destruct n; [contradiction|exact Hch].
+Qed.
+
+(* C26 (tag, whole pipeline): for EVERY decomposed block the rendered text is the normal form of the block with the
+   variables substituted; a block with an unusable variable name is a syntax error *)
+Theorem tag_normalised_block lk b : wf_block b = true ->
+  format_tag (flatten b) lk =
+  if names_valid (flatten b) then Ok (render_items (norm_block b) lk) else Err ESyntax.
+Proof.
+  intro Hwf. unfold format_tag. destruct (names_valid (flatten b)) eqn:Hv; [|reflexivity].
+  destruct (normalise_block b Hwf Hv) as [Hn Hv']. rewrite Hn.
+  apply tag_message_intact, names_valid_ok, Hv'.
+Qed.
+
+(* every block has a decomposition *)
+Lemma span_items_spec p : forall l, let '(a, b) := span_items p l in
+  l = a ++ b /\ forallb p a = true /\ (match b with [] => True | i :: _ => p i = false end) /\
+  (match l with i :: _ => p i = true -> a <> [] | [] => True end).
+Proof.
+  induction l as [|i l IH]; cbn [span_items]; [repeat split|].
+  destruct (p i) eqn:E.
+  - destruct (span_items p l) as [a b]. destruct IH as (I1 & I2 & I3 & _).
+    cbn [app forallb]. rewrite E, I2. repeat split; [f_equal; exact I1|exact I3|discriminate].
+  - repeat split; [exact E|discriminate].
+Qed.
+
+Definition starts_space (l : list item) : Prop := match l with [] => True | i :: _ => item_space i = true end.
+
+Lemma split_rest_spec : forall fuel l, length l <= fuel -> starts_space l ->
+  let '(rest, trail) := split_rest fuel l in
+  flat_rest rest ++ trail = l /\ rest_ok rest = true /\ all_space trail = true.
+Proof.
+  induction fuel as [|f IH]; intros l Hlen Hst.
+  - destruct l; [repeat split|cbn in Hlen; lia].
+  - cbn [split_rest].
+    pose proof (span_items_spec item_space l) as Hs. destruct (span_items item_space l) as [g r1].
+    destruct Hs as (E1 & G1 & G2 & G3).
+    destruct r1 as [|i r1'] eqn:Er1.
+    + rewrite app_nil_r in E1. subst g. repeat split. exact G1.
+    + rewrite <- Er1 in *.
+      pose proof (span_items_spec (fun i => negb (item_space i)) r1) as Hs2.
+      destruct (span_items (fun i => negb (item_space i)) r1) as [w r2].
+      destruct Hs2 as (E2 & W1 & W2 & W3).
+      assert (Hwne : w <> []).
+      { rewrite Er1 in W3. apply W3. rewrite G2. reflexivity. }
+      assert (Hgne : g <> []).
+      { destruct l as [|j l']; [rewrite Er1 in E1; destruct g; discriminate|]. apply G3. exact Hst. }
+      assert (Hlen2 : length r2 <= f).
+      { rewrite E1, E2, !app_length in Hlen. destruct w; [contradiction|]. cbn [length] in Hlen. lia. }
+      assert (Hst2 : starts_space r2).
+      { destruct r2 as [|j r2']; [exact I|]. cbn. apply negb_false_iff in W2. exact W2. }
+      specialize (IH r2 Hlen2 Hst2). destruct (split_rest f r2) as [rest trail].
+      destruct IH as (I1 & I2 & I3).
+      cbn [flat_rest rest_ok forallb fst snd]. fold (rest_ok rest). rewrite I2, I3.
+      repeat split.
+      * rewrite E1, E2. rewrite <- !app_assoc. rewrite I1. reflexivity.
+      * destruct g; [contradiction|]. destruct w; [contradiction|]. cbn [is_gap is_word_run].
+        unfold all_space. rewrite G1, W1. reflexivity.
+Qed.
+
+Theorem decompose_ok items : wf_block (decompose items) = true /\ flatten (decompose items) = items.
+Proof.
+  unfold decompose.
+  pose proof (span_items_spec item_space items) as Hs. destruct (span_items item_space items) as [lead r1].
+  destruct Hs as (E1 & L1 & L2 & _).
+  destruct r1 as [|i r1'] eqn:Er1.
+  - rewrite app_nil_r in E1. subst lead. split; [exact L1|reflexivity].
+  - rewrite <- Er1 in *.
+    pose proof (span_items_spec (fun i => negb (item_space i)) r1) as Hs2.
+    destruct (span_items (fun i => negb (item_space i)) r1) as [w1 r2].
+    destruct Hs2 as (E2 & W1 & W2 & W3).
+    assert (Hwne : w1 <> []).
+    { rewrite Er1 in W3. apply W3. rewrite L2. reflexivity. }
+    assert (Hst2 : starts_space r2).
+    { destruct r2 as [|j r2']; [exact I|]. cbn. apply negb_false_iff in W2. exact W2. }
+    pose proof (split_rest_spec (length r2) r2 (le_n _) Hst2) as Hsp.
+    destruct (split_rest (length r2) r2) as [rest trail]. destruct Hsp as (I1 & I2 & I3).
+    split.
+    + cbn [wf_block]. unfold all_space at 1. rewrite L1. fold (rest_ok rest). rewrite I2, I3.
+      destruct w1; [contradiction|]. cbn [is_word_run]. rewrite W1. reflexivity.
+    + cbn [flatten]. rewrite E1, E2, <- I1. reflexivity.
+Qed.
+
+(* C26 (tag): for EVERY block of characters (any whitespace, percent signs, ...) and variables *)
+Theorem tag_normalised lk items :
+  format_tag items lk =
+  if names_valid items then Ok (render_items (norm_block (decompose items)) lk) else Err ESyntax.
+Proof.
+  destruct (decompose_ok items) as [Hwf Hfl].
+  pose proof (tag_normalised_block lk (decompose items) Hwf) as H. rewrite Hfl in H. exact H.
+Qed.
+
+Theorem run_tag_is_spec c : run_tag c = run_tag_spec c.
+Proof.
+  unfold run_tag, run_tag_spec. rewrite tag_normalised. destruct (names_valid (tc_items c)); reflexivity.
+Qed.
+
+(* ---- what the normal form is, read declaratively ---- *)
+Definition nonspace (i : item) : bool := negb (item_space i).
+
+Lemma filter_all_space g : all_space g = true -> filter nonspace g = [].
+Proof.
+  unfold all_space. induction g as [|i g IH]; cbn [forallb filter]; [reflexivity|]. intro H.
+  apply andb_true_iff in H. destruct H as [Hi Hg]. unfold nonspace at 1. rewrite Hi. cbn. apply IH, Hg.
+Qed.
+
+Lemma gap_out_space g : all_space g = true -> all_space (gap_out g) = true.
+Proof. intro H. unfold gap_out. destruct (existsb item_nl g); [reflexivity|exact H]. Qed.
+
+(* nothing but whitespace changes: the non-whitespace items (characters and variables) are the same, in the same order *)
+Theorem norm_keeps_nonspace b : wf_block b = true ->
+  filter nonspace (norm_block b) = filter nonspace (flatten b).
+Proof.
+  destruct b as [ws|lead w1 rest trail]; intro Hwf.
+  - cbn [norm_block flatten wf_block] in *. rewrite (filter_all_space ws Hwf). reflexivity.
+  - destruct (wf_words_inv _ _ _ _ Hwf) as (Hl & _ & Hr & Ht). cbn [norm_block flatten].
+    rewrite !filter_app, (filter_all_space lead Hl), (filter_all_space trail Ht), app_nil_r. cbn [app]. f_equal.
+    clear Hwf. induction rest as [|[g w] rest IH]; [reflexivity|].
+    cbn [rest_ok forallb fst snd] in Hr. apply andb_true_iff in Hr. destruct Hr as [Hgw Hr].
+    apply andb_true_iff in Hgw. destruct Hgw as [Hg _]. destruct (is_gap_inv g Hg) as [_ Hgs].
+    cbn [norm_rest flat_rest]. rewrite !filter_app, (filter_all_space g Hgs), (filter_all_space _ (gap_out_space g Hgs)).
+    cbn [app]. f_equal. apply IH, Hr.
+Qed.
+
+(* no newline survives outside a variable's value *)
+Theorem norm_no_newline b : wf_block b = true -> forallb (fun i => negb (item_nl i)) (norm_block b) = true.
+Proof.
+  assert (Hword : forall w, forallb (fun i => negb (item_space i)) w = true -> forallb (fun i => negb (item_nl i)) w = true).
+  { induction w as [|[c|n] w IH]; cbn [forallb item_space item_nl]; intro H; [reflexivity| |].
+    - apply andb_true_iff in H. destruct H as [Hc Hw]. rewrite (IH Hw), andb_true_r.
+      apply negb_true_iff in Hc. apply negb_true_iff. unfold is_space in Hc. lia.
+    - apply andb_true_iff in H. destruct H as [_ Hw]. apply IH, Hw. }
+  assert (Hgap : forall g, forallb (fun i => negb (item_nl i)) (gap_out g) = true).
+  { intro g. unfold gap_out. destruct (existsb item_nl g) eqn:E; [reflexivity|].
+    induction g as [|i g IH]; [reflexivity|]. cbn [existsb] in E. apply orb_false_iff in E. destruct E as [Ei Eg].
+    cbn [forallb]. rewrite Ei, (IH Eg). reflexivity. }
+  destruct b as [ws|lead w1 rest trail]; intro Hwf; [reflexivity|].
+  destruct (wf_words_inv _ _ _ _ Hwf) as (_ & Hw1 & Hr & _). cbn [norm_block].
+  rewrite forallb_app. destruct (is_word_run_inv w1 Hw1) as [_ H1]. rewrite (Hword w1 H1). cbn [andb].
+  clear Hwf. induction rest as [|[g w] rest IH]; [reflexivity|].
+  cbn [rest_ok forallb fst snd] in Hr. apply andb_true_iff in Hr. destruct Hr as [Hgw Hr].
+  apply andb_true_iff in Hgw. destruct Hgw as [_ Hw]. destruct (is_word_run_inv w Hw) as [_ H2].
+  cbn [norm_rest]. rewrite !forallb_app, Hgap, (Hword w H2), (IH Hr). reflexivity.
+Qed.
+
+(* the normal form neither starts nor ends with whitespace *)
+Definition ihead_ns (l : list item) : Prop := match l with [] => True | i :: _ => item_space i = false end.
+
+Theorem norm_no_outer_space b : wf_block b = true -> ihead_ns (norm_block b) /\ ihead_ns (rev (norm_block b)).
+Proof.
+  assert (Hhead : forall w x, is_word_run w = true -> ihead_ns (w ++ x)).
+  { intros [|i w] x H; [discriminate|]. cbn in *. apply andb_true_iff in H. destruct H as [H _].
+    apply negb_true_iff in H. exact H. }
+  assert (Hlast : forall w x, is_word_run w = true -> ihead_ns (rev (x ++ w))).
+  { intros w x H. rewrite rev_app_distr. apply Hhead. destruct w as [|i w]; [discriminate|].
+    cbn [is_word_run] in H. destruct (rev (i :: w)) eqn:E.
+    - exfalso. apply (f_equal (@rev item)) in E. rewrite rev_involutive in E. discriminate.
+    - cbn [is_word_run]. rewrite <- E, forallb_rev'. exact H. }
+  destruct b as [ws|lead w1 rest trail]; intro Hwf; [split; exact I|].
+  destruct (wf_words_inv _ _ _ _ Hwf) as (_ & Hw1 & Hr & _). cbn [norm_block]. split; [apply Hhead, Hw1|].
+  clear Hwf. revert w1 Hw1. induction rest as [|[g w] rest IH]; intros w1 Hw1.
+  - cbn [norm_rest]. rewrite app_nil_r. rewrite <- (app_nil_l w1). apply Hlast, Hw1.
+  - cbn [rest_ok forallb fst snd] in Hr. apply andb_true_iff in Hr. destruct Hr as [Hgw Hr].
+    apply andb_true_iff in Hgw. destruct Hgw as [_ Hw]. cbn [norm_rest].
+    specialize (IH Hr w Hw). rewrite !app_assoc. rewrite <- app_assoc. rewrite rev_app_distr.
+    destruct (rev (w ++ norm_rest rest)) eqn:E.
+    + exfalso. apply (f_equal (@rev item)) in E. rewrite rev_involutive in E. destruct w; [discriminate|discriminate].
+    + exact IH.
+Qed.
+
+(* a block without whitespace is left as it is (the earlier, partial theorem, now a special case) *)
+Lemma drop_space_id s : forallb nsp s = true -> drop_space s = s.
+Proof. destruct s as [|c s]; cbn; [reflexivity|]. intro H. apply andb_true_iff in H. destruct H as [H _].
+       apply negb_true_iff in H. rewrite H. reflexivity. Qed.
+
+Lemma normalise_id s : forallb nsp s = true -> normalise s = s.
+Proof.
+  intro H. unfold normalise, strip. rewrite (drop_space_id s H).
+  rewrite drop_space_id by (rewrite forallb_rev'; exact H). rewrite rev_involutive.
+  rewrite <- (app_nil_r s) at 1. rewrite collapse_word by exact H. apply app_nil_r.
+Qed.
+
+Theorem tag_text_intact lk items : names_ok items ->
+  forallb (fun c => negb (is_space c)) (serialize items) = true ->
+  format_tag items lk = Ok (render_items items lk).
+Proof.
+  intros Hok Hns. unfold format_tag. rewrite (names_ok_valid items Hok), (normalise_id _ Hns).
+  apply tag_message_intact, Hok.
+Qed.
+
+(* ------------------------------------------------------------------ *)
+(* counts and plural selection                                         *)
+
+Definition dflt (d : Z) (o : option Z) : Z := match o with Some z => z | None => d end.
+
+(* the tag: the count's integer value, 1 when it has none; then the NullTranslations rule *)
+Theorem tag_form_spec hp c :
+  tag_form hp c = Ok (if hp then null_ngettext (dflt 1 (count_int c)) else Singular).
+Proof.
+  destruct c; try reflexivity. unfold tag_form, tag_count, to_int, count_int. destruct (py_int s); reflexivity.
+Qed.
+
+(* ngettext / npgettext filters: the same, except that values int() has no conversion for are the Liquid type error *)
+Theorem ng_form_spec c :
+  ng_form c = if count_no_type c then Err EType else Ok (null_ngettext (dflt 1 (count_int c))).
+Proof.
+  destruct c; try reflexivity. unfold ng_form, ng_count, to_int, count_int, count_no_type. destruct (py_int s); reflexivity.
+Qed.
+
+(* the t filter: nil and booleans mean no count at all *)
+Theorem t_form_spec hp c :
+  t_form hp c =
+  match c with
+  | CAbsent | CNil | CBool _ => Ok Singular
+  | CArr | CHash => Err EType
+  | _ => Ok (match hp, count_int c with true, Some n => null_ngettext n | _, _ => Singular end)
+  end.
+Proof.
+  destruct c; try reflexivity; try (destruct hp; reflexivity).
+  unfold t_form, t_count, to_int, count_int. destruct (py_int s); destruct hp; reflexivity.
+Qed.
+
+(* no count value makes plural selection fail with anything but a Liquid error *)
+Theorem count_errors_are_liquid hp c :
+  (forall e, t_form hp c = Err e -> is_liquid e = true) /\
+  (forall e, ng_form c = Err e -> is_liquid e = true) /\
+  (forall e, tag_form hp c = Err e -> is_liquid e = true).
+Proof.
+  rewrite t_form_spec, ng_form_spec, tag_form_spec. repeat split; intros e H.
+  - destruct c; inversion H; reflexivity.
+  - destruct (count_no_type c); inversion H; reflexivity.
+  - inversion H.
+Qed.
 
 Theorem plural_rule z :
-  t_form true (CInt z) = null_ngettext z /\ t_form false (CInt z) = Singular /\
+  t_form true (CInt z) = Ok (null_ngettext z) /\ t_form false (CInt z) = Ok Singular /\
   tag_form true (CInt z) = Ok (null_ngettext z) /\ tag_form false (CInt z) = Ok Singular /\
-  t_form true (CStrInt z) = null_ngettext z /\ tag_form true (CStrInt z) = Ok (null_ngettext z).
+  ng_form (CInt z) = Ok (null_ngettext z).
 Proof. repeat split. Qed.
+
+(* strings: Python's int() reads optional whitespace, an optional sign and decimal digits *)
+Definition dval (ds : str) : Z := fold_left (fun a c => (a * 10 + Z.of_N (c - 48))%Z) ds 0%Z.
+
+Lemma digits_us_plain : forall ds acc p, forallb is_digit ds = true -> (ds <> [] \/ p = true) ->
+  digits_us ds acc p = Some (fold_left (fun a c => (a * 10 + Z.of_N (c - 48))%Z) ds acc).
+Proof.
+  induction ds as [|c ds IH]; intros acc p H Hne.
+  - destruct Hne as [Hne| ->]; [contradiction|reflexivity].
+  - cbn [forallb] in H. apply andb_true_iff in H. destruct H as [Hc Hds].
+    cbn [digits_us fold_left]. rewrite Hc. apply IH; [exact Hds|right; reflexivity].
+Qed.
+
+Lemma digit_nsp ds : forallb is_digit ds = true -> forallb nsp ds = true.
+Proof.
+  induction ds as [|c ds IH]; cbn [forallb]; [reflexivity|]. intro H. apply andb_true_iff in H. destruct H as [Hc Hd].
+  rewrite (IH Hd), andb_true_r. unfold nsp, is_digit, is_space in *. lia.
+Qed.
+
+Inductive sign := SNone | SPlus | SMinus.
+Definition sign_str (s : sign) : str := match s with SNone => [] | SPlus => [43%N] | SMinus => [45%N] end.
+Definition sign_val (s : sign) (z : Z) : Z := match s with SMinus => (- z)%Z | _ => z end.
+
+Theorem py_int_decimal lead trail sg ds : forallb is_space lead = true -> forallb is_space trail = true ->
+  ds <> [] -> forallb is_digit ds = true ->
+  py_int (lead ++ (sign_str sg ++ ds) ++ trail) = Some (sign_val sg (dval ds)).
+Proof.
+  intros Hl Ht Hne Hd. unfold py_int.
+  assert (Hns : forallb nsp (sign_str sg ++ ds) = true).
+  { rewrite forallb_app, (digit_nsp ds Hd), andb_true_r. destruct sg; reflexivity. }
+  assert (Hne' : sign_str sg ++ ds <> []) by (destruct sg; [exact Hne|discriminate|discriminate]).
+  rewrite strip_core; [|exact Hl|exact Ht| |apply last_ns_word; assumption].
+  - destruct sg; cbn [sign_str app sign_val].
+    + destruct ds as [|c ds]; [contradiction|].
+      assert (Hc : is_digit c = true) by (cbn in Hd; apply andb_true_iff in Hd; tauto).
+      assert (c <> 43 /\ c <> 45)%N as [H1 H2] by (unfold is_digit in Hc; lia).
+      destruct (N.eqb_spec c 43); [contradiction|]. destruct (N.eqb_spec c 45); [contradiction|].
+      apply digits_us_plain; [exact Hd|left; discriminate].
+    + cbn [N.eqb Pos.eqb]. apply digits_us_plain; [exact Hd|left; exact Hne].
+    + cbn [N.eqb Pos.eqb]. rewrite (digits_us_plain ds 0 false Hd (or_introl Hne)). reflexivity.
+  - rewrite <- (app_nil_r (sign_str sg ++ ds)). apply head_ns_app; assumption.
+Qed.
+
+(* ------------------------------------------------------------------ *)
+(* message context                                                     *)
+
+(* whatever the context argument is, with null translations the text is chosen by the count alone: the context only
+   decides WHICH gettext function is asked *)
+Theorem context_leaves_text c :
+  run_plural c =
+  match pc_entry c with
+  | ETag => tag_form (pc_plural c) (pc_count c)
+  | ETFilter => t_form (pc_plural c) (pc_count c)
+  | EGettext | EPgettext => Ok Singular
+  | ENgettext | ENpgettext => ng_form (pc_count c)
+  end.
+Proof.
+  destruct c as [e hp cnt x]. unfold run_plural, run_call. cbn [pc_entry pc_plural pc_count pc_ctx].
+  destruct e; try reflexivity.
+  - unfold tag_call, tag_form. destruct (tag_count cnt); cbn; [|reflexivity|reflexivity].
+    destruct hp, (tag_ctx x); reflexivity.
+  - unfold t_call, t_form. destruct (t_count cnt) as [[n|]| |]; cbn; try reflexivity; destruct hp, (t_ctx x); reflexivity.
+  - unfold ngettext_call, ng_form. destruct (ng_count cnt); reflexivity.
+  - unfold npgettext_call, ng_form. destruct (ng_count cnt); reflexivity.
+Qed.
+
+(* which function the tag asks: the p-variants exactly for a truthy context, the n-variants exactly with a plural block *)
+Theorem tag_call_spec hp c x :
+  tag_call hp c x =
+  do n <- tag_count c;
+  Ok (match tag_ctx x with
+      | Some k => if hp then GNpget k n else GPget k
+      | None => if hp then GNget n else GGet
+      end).
+Proof. unfold tag_call. destruct (tag_count c); cbn; try reflexivity. destruct hp, (tag_ctx x); reflexivity. Qed.
